@@ -67,12 +67,14 @@ pub struct TextCase {
     pub c: char,
 }
 
-#[derive(Clone, Copy, PartialEq, Eq)]
+#[derive(Clone, Copy, Debug, PartialEq, Eq, Serialize, Deserialize)]
 pub enum Oracle {
     /// C08: the call panics and verification of the original fails with that text
     Recorded,
     /// C19: the message starts with `Text::method(<Debug of the arguments>)`
     Rendering,
+    /// C11: the mock-induced panic can be caught (the process does not abort)
+    NoAbort,
 }
 
 fn setup(kind: Kind) -> impl Clause {
@@ -155,6 +157,7 @@ pub fn check(case: &TextCase, oracle: Oracle) -> Result<CaseInfo, String> {
                 return Err(format!("the mock-induced panic does not render the call as {call:?}: {msg:?}"));
             }
         }
+        Oracle::NoAbort => {}
         Oracle::Recorded => match verdict {
             Ok(()) => return Err(format!("verification passed although a call was rejected; the call's panic message was {msg:?}")),
             Err(vmsg) => {
@@ -188,7 +191,9 @@ fn string_strategy() -> impl Strategy<Value = String> {
         2 => "\\PC{0,80}",
         1 => any::<String>(),
         // a long ASCII prefix of every length around powers of two, then multi-byte characters
-        2 => (0..140usize, "(é|✓|😀|字){1,8}").prop_map(|(n, tail)| format!("{}{tail}", "x".repeat(n))),
+        2 => (prop_oneof![3 => 0..140usize, 1 => 240..270usize, 1 => 500..530usize, 1 => 1000..1040usize, 1 => 4080..4110usize], "(é|✓|😀|字){1,8}")
+            .prop_map(|(n, tail)| format!("{}{tail}", "x".repeat(n))),
+        1 => (1..700usize).prop_map(|n| "é".repeat(n)),
         1 => "[\u{0}-\u{1f}]{0,12}",
     ]
 }
@@ -205,14 +210,65 @@ pub fn case_strategy() -> impl Strategy<Value = TextCase> {
         .prop_map(|(k, via, s, n, v, c)| TextCase { kind: KINDS[k], via, s, n, v, c })
 }
 
-pub const RULE: &str = "text-arguments = every mock-induced error kind about a call whose arguments are generated Unicode strings (printable ASCII, multi-byte and combining characters, quotes and backslashes, control characters, a long ASCII prefix of every length 0..140 followed by multi-byte characters, proptest's arbitrary strings), as &str, String, Vec<String>, Option<&str>, &[String] and char parameters, raised on the original, on a clone, or on a clone in a thread that is joined; non-trivial = a non-ASCII argument or an argument of >= 32 bytes";
+pub const RULE: &str = "text-arguments = every mock-induced error kind about a call whose arguments are generated Unicode strings (printable ASCII, multi-byte and combining characters, quotes and backslashes, control characters, an ASCII prefix of every length 0..140 and around 256 / 512 / 1024 / 4096 followed by multi-byte characters, runs of up to 700 two-byte characters, proptest's arbitrary strings), as &str, String, Vec<String>, Option<&str>, &[String] and char parameters, raised on the original, on a clone, or on a clone in a thread that is joined; non-trivial = a non-ASCII argument or an argument of >= 32 bytes";
+
+#[derive(Serialize, Deserialize)]
+struct WorkerRequest {
+    text_oracle: Oracle,
+    case: TextCase,
+}
+
+#[derive(Serialize, Deserialize)]
+struct WorkerReply {
+    ok: bool,
+    reason: String,
+    nontrivial: bool,
+    classes: Vec<String>,
+}
+
+/// Worker side (`rt --worker text`): a panic raised while another one is being processed aborts
+/// the process, so every case runs in a crash-isolated worker.
+pub fn worker_main() {
+    vcore::worker::serve(|line| {
+        let reply = match serde_json::from_str::<WorkerRequest>(line) {
+            Err(e) => WorkerReply { ok: false, reason: format!("HARNESS: bad request {e}"), nontrivial: false, classes: vec![] },
+            Ok(req) => match catch(|| check(&req.case, req.text_oracle)) {
+                Ok(Ok(info)) => WorkerReply { ok: true, reason: String::new(), nontrivial: info.nontrivial, classes: info.classes.iter().map(|c| c.to_string()).collect() },
+                Ok(Err(reason)) => WorkerReply { ok: false, reason, nontrivial: false, classes: vec![] },
+                Err(p) => WorkerReply { ok: false, reason: format!("HARNESS: panic in worker: {p}"), nontrivial: false, classes: vec![] },
+            },
+        };
+        serde_json::to_string(&reply).unwrap()
+    });
+}
+
+pub fn check_via(worker: &std::cell::RefCell<vcore::worker::Worker>, case: &TextCase, oracle: Oracle) -> Result<CaseInfo, String> {
+    let json = serde_json::to_string(&WorkerRequest { text_oracle: oracle, case: case.clone() }).unwrap();
+    match worker.borrow_mut().run(&json) {
+        vcore::worker::Reply::Crash(status) => Err(format!(
+            "the process aborted ({status}) while a mock-induced panic about this call was raised: a second panic while the first was being processed"
+        )),
+        vcore::worker::Reply::Line(l) => {
+            let r: WorkerReply = serde_json::from_str(&l).map_err(|e| format!("HARNESS: bad worker reply {e}: {l}"))?;
+            if r.ok {
+                let mut ci = CaseInfo::new(r.nontrivial);
+                ci.classes = r.classes.iter().map(|c| super::leak_class(c)).collect();
+                Ok(ci)
+            } else {
+                Err(r.reason)
+            }
+        }
+    }
+}
 
 pub fn sub_report(ctx: &Ctx, oracle: Oracle) -> SubReport {
     let n = ctx.tier.pick(30_000, 600_000);
-    vcore::run_proptest(ctx, "text-arguments", n, case_strategy(), move |c| check(c, oracle))
+    let worker = std::cell::RefCell::new(vcore::worker::Worker::new("text"));
+    vcore::run_proptest(ctx, "text-arguments", n, case_strategy(), move |c| check_via(&worker, c, oracle))
 }
 
 pub fn replay(case: Value, oracle: Oracle) -> Result<(), String> {
     let c: TextCase = serde_json::from_value(case).map_err(|e| format!("HARNESS: bad case: {e}"))?;
-    check(&c, oracle).map(|_| ())
+    let worker = std::cell::RefCell::new(vcore::worker::Worker::new("text"));
+    check_via(&worker, &c, oracle).map(|_| ())
 }
